@@ -3,7 +3,7 @@ import os
 from pathlib import Path
 
 PROPS_VO = "Props/C16.vo"
-EXTRA_VO = ["Proofs/C16Proofs.vo"]
+EXTRA_VO = ["Model/C16Oracle.vo"]      # the oracle is extracted but is not a dependency of Props/C16.vo
 PROFILES = ["release", "debug"]     # debug = overflow checks on: usize under/overflow panics instead of wrapping
 RULE = ("harness c16: straight-line CKKS programs generated while being executed on FFT64Ref and NTT120Ref "
         "(n = 128/256, base2k 19/16 and 52/45), 6 registers of unequal limb counts, operands of unequal "
@@ -83,6 +83,8 @@ def classify(record):
                 meta[b] = (r[4], r[5])
         huge = any(x >= HUGE for x in s[4:])
         exceeds = st != 99 and (ld + lb > size * B or ld >= HUGE or lb >= HUGE)
+        if op == 64 and st == 0 and len(r) >= 7 and r[4] + r[5] > r[6] * B:
+            exceeds = True
         if st == 99:
             if huge and op in (54, 56, 68):
                 keys.append("C16:usize_overflow.huge_scalar")
